@@ -545,3 +545,28 @@ Example C20_separators_pinned :
   filter (fun l => Nat.eqb (length l) 1) String_lits = [[c_slash]; [c_at]; [c_colon]] /\
   filter (fun l => Nat.eqb (length l) 1) setQueryParams_lits = [[38]; [61]; [61]; [38]].
 Proof. vm_compute. repeat split. Qed.
+
+(* ---------- oras.Tag / oras.TagN on a remote Repository (content.go) ---------- *)
+
+(* whatever source / destination strings are passed and whatever the registry serves, every request
+   of oras.Tag / oras.TagN on a Repository with a valid base stays in the base repository *)
+Theorem C20_oras_tag_in_base :
+  forall (avail vr : str -> bool) plain breg brepo src dsts served,
+    (forall reg, vr reg = true -> reg_clean reg = true) ->
+    vr breg = true -> valid_repository brepo = true ->
+    Forall (fun mu => in_base_slot plain breg brepo (snd mu))
+           (oras_tag_requests avail vr plain breg brepo src dsts served).
+Proof. exact (fun avail vr plain breg brepo src dsts served H Hb Hp => oras_tag_in_base avail vr H plain breg brepo Hb Hp src dsts served). Qed.
+Print Assumptions C20_oras_tag_in_base.
+
+(* tag@digest as source and a fully qualified destination send exactly the requests of the bare
+   digest and the bare tag *)
+Theorem C20_oras_tag_forms_agree :
+  forall (avail vr : str -> bool) plain breg brepo t dg d2 served,
+    (forall reg, vr reg = true -> reg_clean reg = true) ->
+    vr breg = true -> valid_repository brepo = true ->
+    valid_tag t = true -> valid_digest avail dg = true -> valid_tag d2 = true ->
+    oras_tag_requests avail vr plain breg brepo (t ++ [c_at] ++ dg) [breg ++ [c_slash] ++ brepo ++ [c_colon] ++ d2] served
+    = oras_tag_requests avail vr plain breg brepo dg [d2] served.
+Proof. exact (fun avail vr plain breg brepo t dg d2 served H Hb Hp => oras_tag_forms_agree avail vr H plain breg brepo Hb Hp t dg d2 served). Qed.
+Print Assumptions C20_oras_tag_forms_agree.
